@@ -115,5 +115,50 @@ def baggage : Propagator RCtx Carrier where
 
 def emptyCtx : RCtx := .ok { span := none, baggage := none }
 
+/-- `NoOpPropagator` (`context/propagation/noop_propagator.h`), which is also what the global slot holds before
+    `SetGlobalPropagator` is first called -/
+def noop {Ctx Car : Type} : Propagator Ctx Car where
+  inject := fun car _ => car
+  extract := fun _ ctx => ctx
+
+/-! ### `Fields(callback)` -/
+
+/-- the caller's callback as the harness builds it: it records every name it is handed and answers `false` at its
+    `stopAt`-th call (`0` = never) -/
+structure FieldsCb where
+  seen : List Bytes
+  calls : Nat
+  stopAt : Nat
+  deriving Repr, DecidableEq
+
+def FieldsCb.call (cb : FieldsCb) (name : Bytes) : FieldsCb × Bool :=
+  ({ cb with seen := cb.seen ++ [name], calls := cb.calls + 1 }, !(cb.calls + 1 == cb.stopAt))
+
+/-- `return callback(n1) && callback(n2) && …;` of a built-in propagator (`[]`: `NoOpPropagator`, `return true`) -/
+def fieldsOf : List Bytes → FieldsCb → FieldsCb × Bool
+  | [], cb => (cb, true)
+  | n :: t, cb =>
+    match cb.call n with
+    | (cb', true) => fieldsOf t cb'
+    | (cb', false) => (cb', false)
+
+/-- `CompositePropagator::Fields`: `for (auto &p : propagators_) status = status && p->Fields(callback);` -/
+def compositeFieldsLoop : List (List Bytes) → Bool → FieldsCb → FieldsCb × Bool
+  | [], status, cb => (cb, status)
+  | p :: t, status, cb =>
+    if status then
+      match fieldsOf p cb with
+      | (cb', st) => compositeFieldsLoop t st cb'
+    else compositeFieldsLoop t false cb
+
+def compositeFields (parts : List (List Bytes)) (cb : FieldsCb) : FieldsCb × Bool := compositeFieldsLoop parts true cb
+
+/-- the names each built-in propagator announces, in its order -/
+def w3cFields : List Bytes := [traceparentName, tracestateName]
+def b3SingleFields : List Bytes := [Gen.b3CombinedHeader]
+def b3MultiFields : List Bytes := [Gen.b3TraceIdHeader, Gen.b3SpanIdHeader, Gen.b3SampledHeader]
+def jaegerFields : List Bytes := [Gen.jaegerHeader]
+def baggageFields : List Bytes := [Gen.baggageHeader]
+
 end Propagation
 end Otel
